@@ -208,6 +208,22 @@ func fxEvalInt(v ssa.Value, env map[ssa.Value]int64) (int64, bool) {
 			return a - b, true
 		case token.MUL:
 			return a * b, true
+		case token.QUO:
+			if b != 0 {
+				return a / b, true
+			}
+		case token.REM:
+			if b != 0 {
+				return a % b, true
+			}
+		case token.SHR:
+			if b >= 0 && b < 63 {
+				return a >> uint(b), true
+			}
+		case token.SHL:
+			if b >= 0 && b < 63 {
+				return a << uint(b), true
+			}
 		}
 	case *ssa.UnOp:
 		if x.Op == token.MUL {
@@ -218,6 +234,14 @@ func fxEvalInt(v ssa.Value, env map[ssa.Value]int64) (int64, bool) {
 	}
 	if c, ok := env[v]; ok {
 		return c, true
+	}
+	// len(x) of an environment-bound slice length
+	if call, ok := v.(*ssa.Call); ok {
+		if bi, isB := call.Call.Value.(*ssa.Builtin); isB && bi.Name() == "len" && len(call.Call.Args) == 1 {
+			if c, ok := env[call.Call.Args[0]]; ok {
+				return c, true
+			}
+		}
 	}
 	return 0, false
 }
